@@ -108,6 +108,14 @@ func genC03(e *emitter, tier string, seed int64) {
 			}
 		}
 	}
+	// a for-in loop whose variable is a name that exists outside: the loop's own frame holds only what the body
+	// creates, and is empty again at every pass
+	for _, it := range []string{"[1, 2, 3]", "\"abc\"", "{\"a\": 1}"} {
+		for _, body := range []string{"if c == nil {\n    cnt = cnt + 1\n  }\n  c = x", "p(c, d)\n  c = 1", "p(c)\n  c = x\n  d = x", "if x == 1 {\n    continue\n  }\n  p(c)\n  c = x", "p(c)\n  c = x\n  if true {\n    break\n  }"} {
+			emitCtl("x = 0\ncnt = 0\nfor x in "+it+" {\n  "+body+"\n}\np(\"after\", x, cnt, c, d)\n", "forin-outer-variable")
+			emitCtl("cnt = 0\nfor y in "+it+" {\n  "+strings.ReplaceAll(body, "x", "y")+"\n}\np(\"after\", y, cnt, c, d)\n", "forin-outer-variable")
+		}
+	}
 	for i := 0; i < N; i++ {
 		g := newPG(rng)
 		g.allowBuilt = false
